@@ -53,5 +53,100 @@ def main(names):
                        "how": "/venv/bin/python tools/witness.py " + name}, open("/verif/findings/%s.json" % name, "w"), indent=1, ensure_ascii=False)
     return rcode
 
+def _entry():
+    if "--extra" in sys.argv:
+        from harness.props import c10
+        c10.save_originals()
+        core.use_repo(); core.django_setup()
+        extra_witnesses()
+        return 0
+    return main(sys.argv[1:])
+
+
+# ---------------------------------------------------------------- findings that are not "real != spec" on one render
+
+def extra_witnesses():
+    """C04 / C06 / C07 / C10 witnesses (fault runs, schedules, families); written to findings/"""
+    import copy
+    from harness.props import c04, c06, c07, c10
+    out = {}
+    # C06: a raising get_context_data of a nested component leaves registry entries; of a top-level one a render_context layer
+    p = prog(True, [("c0", [comp("c1")], []), ("c1", [T("x")], [])], [comp("c0")])
+    for name, raise_at in (("C06-error-leak", [1, 0]), ("C06-render-context-layer", [0, 0])):
+        fp = dict(p, **{"raise": raise_at})
+        (rep, _), = rc.batch([fp], with_spec=False)
+        real = tplgen.run_real(fp, limit=3.0)
+        out[name] = {"finding": name, "source": rc.describe(fp), "program": fp,
+                     "real": {"err": real["err"], "registries_after": real["residue"],
+                              "render_context_depth_before_after": [real.get("rc_before"), real.get("rc_after")]},
+                     "model": {"err": rep["err"], "registries_after": rep["residue"], "rc_leak": rep.get("rc_leak")},
+                     "agrees_with_model": rc.cmp_model(real, rep) is None}
+    out["C06-exception-type"] = {"finding": "C06-exception-type (fixed 0514c3f)",
+                                 "before_fix": ["KeyError(5) in get_context_data -> AttributeError: 'int' object has no attribute 'split'",
+                                                "ValueError('line one\\nline two') -> message 'line two' only", "OSError(2,'x') -> AttributeError"],
+                                 "after_fix": "exception class and whole message preserved; re-checked by ./check C06 (faults stream, classes 1-3)"}
+    # C04: non-ASCII class name
+    import random
+    from django.template import Context, Template
+    from django_components import render_dependencies
+    tplgen.patch_ids(); tplgen.set_mode(True)
+    pp = {"isolated": True, "lib": [{"name": "c0", "template": [T("x")], "data": [], "clsname": "Ünï_witness", "pyattrs": {"js": "/*JS*/"}}],
+          "entry": {"page": [comp("c0")]}, "ctx": [], "raise": None}
+    b = tplgen.Built(pp, tplgen.Recorder(None))
+    try:
+        h0 = str(Template("<body>" + tplgen.p_nodes(pp["entry"]["page"]) + "</body>").render(Context()))
+        fin = str(render_dependencies(h0))
+    finally:
+        b.close()
+    out["C04-non-ascii-class"] = {"finding": "C04-non-ascii-class", "class_name": "Ünï_witness", "page_before_dependencies": h0, "final": fin,
+                                  "marker_survives": "_RENDERED" in fin, "js_delivered": "/*JS*/" in fin}
+    # C10: a component that extends a base, nested in its own fill
+    blk = lambda n, body: {"t": "block", "name": n, "body": body}
+    fam = {"card_base": [T("["), blk("title", [T("DECOY")]), T("]"), blk("body", [T("DECOY2")])]}
+    lib = [{"name": "card", "data": [], "template": [{"t": "extends", "parent": "card_base"}, blk("title", [T("Fancy")]),
+                                                      blk("body", [slot("s1", [T("d")], default=True)])]}]
+    page = [comp("card", [comp("card")])]
+    famprog = {"isolated": False, "lib": lib, "entry": {"page": page}, "ctx": [], "raise": None}
+    rep = core.drive([{"op": "flatten", "family": [[k, v] for k, v in fam.items()] + [["card", lib[0]["template"]], ["__page__", page]], "roots": ["card", "__page__"]}])[0]
+    flat = copy.deepcopy(famprog); flat["lib"][0]["template"] = rep["flat"][0]; flat["entry"]["page"] = rep["flat"][1]
+    from django.template import engines
+    loader = engines["django"].engine.template_loaders[0]
+    loader.templates_dict["card_base"] = c10.p_family(fam["card_base"])
+    old = tplgen.p_nodes
+    try:
+        tplgen.p_nodes = c10.p_family
+        a = tplgen.run_real(famprog, limit=3.0)
+    finally:
+        tplgen.p_nodes = old
+        loader.templates_dict.pop("card_base", None)
+    bb = tplgen.run_real(flat, limit=3.0)
+    out["C10-shared-block-names"] = {"finding": "C10-shared-block-names", "family": {"card_base": c10.p_family(fam["card_base"]), "card": c10.p_family(lib[0]["template"]),
+                                     "page": c10.p_family(page)}, "family_output": a["err"] or tplgen.canon_real(a["out"], a["hash2name"]),
+                                     "flattened_output": bb["err"] or tplgen.canon_real(bb["out"], bb["hash2name"])}
+    # C07: first failing schedules found by the scheduler
+    class Grab:
+        def __init__(self): self.hits = {}; self.violations = []
+        def count(self, *a, **k): pass
+        def branch(self, *a): pass
+        def nontrivial(self, *a): pass
+        def errkind(self, *a): pass
+        def known_hit(self, slug, detail=None): self.hits.setdefault(slug, detail)
+        def violation(self, *a, **k): self.violations.append((a, k))
+    g = Grab()
+    c07.explore(g, "healthy", 12, [3, 25, 80], 6, failing=False)
+    c07.explore(g, "failing", 6, [3, 25, 80], 6, failing=True)
+    c07.run_lru(g, 6)
+    for slug, fname in (("provide-bookkeeping-races", "C07-provide-race-schedule"), ("error-path-unregisters-other-threads-references", "C07-error-path-schedule"),
+                        ("lru-cache-not-thread-safe", "C07-lru-schedule")):
+        if slug in g.hits:
+            d = g.hits[slug]
+            if "programs" in d:
+                d = dict(d, source=[l for p_ in d["programs"] for l in rc.describe(p_)])
+            out[fname] = {"finding": fname, "how": "replayed exactly by harness/sched.py (deterministic line-level scheduler)", **d}
+    for name, doc in out.items():
+        json.dump(doc, open("/verif/findings/%s.json" % name, "w"), indent=1, ensure_ascii=False, default=str)
+        print("WROTE", name, {k: (str(v)[:100]) for k, v in doc.items() if k in ("agrees_with_model", "marker_survives", "family_output", "flattened_output", "schedule", "real")})
+
+
 if __name__ == "__main__":
-    sys.exit(main(sys.argv[1:]))
+    sys.exit(_entry())
